@@ -1,20 +1,16 @@
 #!/bin/bash
-# usage: tools/try_mutant.sh <Cxx> <patch.diff> [check ids...]   -- applies the patch to /repo, runs the checks, reverts.
-# (sub-agents never touch /repo; only the integrator runs this)
-P=$1; D=$2; shift 2
+# usage: tools/try_mutant.sh <Cxx> <patch.diff> [check ids...]
+# Runs the check(s) against the patch in ISOLATION: a scratch worktree of /repo with the patch applied and a
+# scratch copy of the framework (so /repo, /verif/coq/Gen/Tables.v and /verif/evidence are never touched).
+P=$1; D=$(readlink -f "$2"); shift 2
 IDS=${@:-$P}
-cd /repo || exit 2
-if [ -n "$(git status --porcelain)" ]; then echo "/repo not clean"; exit 2; fi
-git apply "$D" || { echo "patch does not apply"; exit 2; }
+WT=/tmp/wt_try_$$; VC=/tmp/verif_try_$$
+git -C /repo worktree add -q --detach $WT HEAD || exit 2
+if ! git -C $WT apply "$D"; then echo "patch does not apply"; git -C /repo worktree remove --force $WT; exit 2; fi
+rsync -a --exclude .git --exclude 'replay/*.json' /verif/ $VC/
 for id in $IDS; do
-  cp /verif/evidence/$id.json /verif/build/evidence_$id.keep 2>/dev/null
-  (cd /verif && ./check $id 2>&1 | grep -E "VIOLATION|KNOWN|^\[|^  " | head -8)
-  # the evidence of a run against a mutated tree is not evidence about /repo: restore the clean-tree file
-  cp /verif/build/evidence_$id.keep /verif/evidence/$id.json 2>/dev/null
+  (cd $VC && VERIF_REPO=$WT ./check $id 2>&1 | grep -E "VIOLATION|KNOWN|^\[|^  " | head -8)
 done
-git -C /repo checkout -- .
-# regenerate tables from the clean tree
-(cd /verif && PYTHONPATH=/repo /venv/bin/python -W ignore -c "
-import sys; sys.path.insert(0,'.')
-from harness import common as C; C.gen_tables()" 2>/dev/null)
-git -C /repo status --porcelain
+mkdir -p /verif/build/mutant_replays && cp $VC/replay/*.json /verif/build/mutant_replays/ 2>/dev/null
+rm -rf $VC
+git -C /repo worktree remove --force $WT
